@@ -25,6 +25,21 @@ Genuine defects found (all reproduced on the real code; diffs in spec/Delta/*.fi
   C25 epoch-flip:idle-subscription-survives, update-for-untracked-key:after-removal, stale-epoch-data:push
         (no small safe fix; see the final report / known_findings.json)
 
+Later additions (seeded changes C14-1, C14-2, C25-2, C05-2 passed the first version of the checks):
+  * per-publication delta option (PublishOptions.UseDelta / MapPublishOptions.UseDelta) is an argument of Publish in
+    Delta.tla / DeltaMap.tla; scenario witnesses scn_mixed (medium: with / without / with the option) and scn_tail
+    (recovered reply whose position tail was buffered inside the subscribe window and withheld by the tags filter, then a
+    live delta) are replayed WITH frame comparison on every run. Seeded C14-1 -> sig medium:live-nonpositioned:
+    after-nondelta-publish:*, seeded C14-2 -> recovery-to-live:after-filtered-in-window:*.
+  * SharedPoll.tla: track split at the natural gate Node.OnCommandProcessed (reply written, keyed-hub join pending),
+    monitors stale-after-(refresh|publish)[:track-window:<cached-item|same-version|zero>]: with everything at rest a
+    tracking connection must not be left with an older payload than one applied on the server while it tracked the key.
+    Seeded C25-2 -> :track-window:cached-item. HEAD itself loses such an update for keys NOT classified warm at trackKeys
+    time (:track-window:same-version, :zero; TLC liveness counterexample live_split_head.cfg; candidate fix
+    spec/SharedPoll/c25_track_window.fix.diff, with it the code matches the reference with 0 drift).
+  * TrackClose.tla + harness mode trackclose + c05_keyed(c) for C05 (called from fam/lifecycle.py); HEAD defect fixed by
+    /repo fe4f9531 (spec/SharedPoll/c05_track_join.fix.diff).
+
 Mutation testing (FRAMEWORK.md rule 3; scratch worktrees /tmp/keyed-*, baseline = HEAD + d1..d3: C14 exit 0 for seeds 1..5;
 C25 baseline shows exactly the three known sigs for seeds 1..5, every mutation adds the sig named in its line), `./check` exit:
   C14 m1 first-full rule skipped on the positioned live path (deltaAllowed || true)                     caught (1)
@@ -153,7 +168,7 @@ def c14(c):
     # 1. design check: the reference design satisfies C14 on every behaviour of the small configurations
     # 2. the code as written (flagDeltaAllowed after every recovered subscribe) has C14 counterexamples in the model
     # 3. behaviours of the reference design for replay
-    cfgs = ['quick_rec.cfg', 'quick_np.cfg'] if quick else ['thorough_pos.cfg', 'thorough_np.cfg', 'thorough_faults.cfg']
+    cfgs = ['quick_rec.cfg', 'quick_np.cfg'] if quick else ['thorough_pos.cfg', 'thorough_np.cfg', 'thorough_faults.cfg', 'thorough_mix.cfg']
     jobs = [_exh(c, 'Delta', 'Delta', v(x), workers=1 if quick else 2) for x in cfgs]
     if not quick:   # the other filter policy is sound as well
         jobs += [_exh(c, 'Delta', 'Delta', _variant(c, 'Delta', x, not withhold)) for x in ['quick_rec.cfg', 'quick_np.cfg']]
@@ -165,8 +180,13 @@ def c14(c):
     # map paths: per-key bases (sequential model of the map subscribe protocol outcomes)
     jobs += [_exh(c, 'Delta', 'DeltaMap', 'map_quick.cfg'), _witness(c, 'Delta', 'DeltaMap', 'map_ascoded.cfg'),
              _sim(c, 'Delta', 'DeltaMap', 'map_sim.cfg', 150 if quick else 3000, 30)]
+    # scenario witnesses of the REFERENCE (shortest behaviours reaching a named situation; replayed with comparison on
+    # every run): recovered reply whose position tail was withheld inside the subscribe window, then a live delta;
+    # medium: publications with / without / with the delta option
+    jobs += [_witness(c, 'Delta', 'Delta', v('scn_tail.cfg')), _witness(c, 'Delta', 'Delta', v('scn_mixed.cfg'))]
     out = _par(jobs)
     wit, behs, kbehs, mwit, mbehs = out[nj], out[nj + 1], out[nj + 2], out[nj + 4], out[nj + 5]
+    behs = [out[nj + 6], out[nj + 7]] + behs
     res = c.harness(binp, 'mapdelta', {'compare': False, 'behaviours': [mwit]}, timeout=300)
     _absorb_delta(c, res, total)
     res = c.harness(binp, 'mapdelta', {'compare': True, 'behaviours': mbehs}, timeout=1800)
@@ -202,15 +222,26 @@ def c25(c):
     #    fairness of worker / publisher / revoker / track completion with the refresh timer on, no state constraint)
     # 2. deviations of the code from the reference found by TLC: counterexamples = witnesses for the real code
     # 3. behaviours of the reference for gate replay
+    # 0. track window (reply written, hub join pending; natural gate Node.OnCommandProcessed): does the code under test
+    #    cover an update that lands there for a key that was not classified warm? The as-coded counterexample decides
+    #    which model variant explains the code (the violation itself is reported either way).
+    wsame = _witness(c, 'SharedPoll', 'SharedPoll', 'scn_window_same.cfg')()
+    res = c.harness(binp, 'sharedpoll', {'compare': False, 'versioned': True, 'behaviours': [wsame]}, timeout=300)
+    gap = any('track-window' in (v.get('sig') or '') for v in res.get('violations') or [])
+    _absorb_sp(c, res, total)
+    c.cov['track_window_gap_in_code'] = gap
+    c.log('track window: an update between track reply and hub join for a non-warm key is %s' % ('LOST by the code under test' if gap else 'covered'))
     cfgs = ['quick.cfg', 'quick_vl.cfg'] if quick else ['thorough.cfg', 'thorough2.cfg', 'thorough_vl.cfg']
-    jobs = [_exh(c, 'SharedPoll', 'SharedPoll', x, workers=1 if quick else 2) for x in cfgs + ['live.cfg', 'live_vl.cfg']]
+    cfgs += ['quick_split.cfg', 'live.cfg', 'live_vl.cfg', 'live_split.cfg']
+    jobs = [_exh(c, 'SharedPoll', 'SharedPoll', x, workers=1 if quick else 2) for x in cfgs]
     nj = len(jobs)
-    wcfgs = ['ascoded_flip.cfg', 'ascoded_removal.cfg', 'ascoded_epoch.cfg']
+    wcfgs = ['ascoded_flip.cfg', 'ascoded_removal.cfg', 'ascoded_epoch.cfg', 'scn_window_cached.cfg']
     jobs += [_witness(c, 'SharedPoll', 'SharedPoll', x) for x in wcfgs]
     n = 160 if quick else 1500
-    sims = (('sim_v.cfg', True, n), ('sim_flip.cfg', True, n // 4), ('sim_vl.cfg', False, n // 2))
+    sims = (('sim_v.cfg', True, n), ('sim_flip.cfg', True, n // 4), ('sim_vl.cfg', False, n // 2),
+            ('sim_split_head.cfg' if gap else 'sim_split.cfg', True, n // 2))
     jobs += [_sim(c, 'SharedPoll', 'SharedPollSim', x, k, 50) for x, _, k in sims]
-    out = _par(jobs)
+    out = _par(jobs, width=5)
     wits = out[nj:nj + len(wcfgs)]
     res = c.harness(binp, 'sharedpoll', {'compare': False, 'versioned': True, 'behaviours': wits}, timeout=300)
     _absorb_sp(c, res, total)
@@ -263,7 +294,7 @@ _n14 = ('Bounds: exhaustive (reference design): stream paths <=3 publications (4
         'TLC counterexamples of the as-coded configurations as witnesses. Payloads: seeded distinct JSON documents (with escapes, HTML characters, '
         '2-4 byte UTF-8, U+2028; every second behaviour ASCII only) and binary blobs (all byte values, fossil grammar characters) of 90-300 bytes sharing '
         'long substrings. NOT decided by the specification: correctness of the fossil algorithm itself and of the JSON string escaping - they are only '
-        'covered by the byte comparison on these generated payloads (that comparison found the UTF-8 cut defect D2). Not modelled: mixed history / '
+        'covered by the byte comparison on these generated payloads (that comparison found the UTF-8 cut defect D2). The per-publication delta option is a Publish argument (mixed sequences). Not modelled: mixed history / '
         'no-history publishes into one channel, channel medium with queue / broadcast delay, cache recovery mode with delta, unidirectional transports, '
         'channel compaction ids, publications without offset inside the subscribe window (known finding C10), concurrent HandlePublication calls for one '
         'channel (brokers serialise per channel), Redis brokers. Trusted: TLC, lib/tlaparse.py, the fossil library Apply on the client side, the harness '
@@ -275,7 +306,7 @@ _n25 = ('Bounds: exhaustive (reference design) 2 connections, 1 key (2 versionle
         'simulated behaviours (2 connections, 2 keys, <=5 changes, 12 operations) on JSON / Protobuf, 3 witnesses, 24 (96 thorough) free-running schedules of 60 operations '
         'with the real 25 ms refresh timer. Replay granularity: a thread runs from gate to gate (gates: OnSharedPoll entry / return, the trace-log call between '
         'phase 1 and the locked enqueue of keyedWritePublication / before the removal write, start / return of SharedPollPublish and SharedPollRevokeKeys); '
-        'track steps 1-4 and 5-7 are one step (no public call between them); the order in which a broadcast visits its subscribers is Go map order, so '
+        'track steps 1-4 (through the reply) and 5-7 (hub join, warm snapshot) are separate steps, the command parked in Node.OnCommandProcessed in between; the order in which a broadcast visits its subscribers is Go map order, so '
         'two subscribers passing phase 1 are handled without interleaving. KeepLatestData = true only (delta base from the entry; PrevData from the backend '
         'and KeepLatestData = false are not modelled), local publish mode (PublishEnabled = false), no notification batching, no track expiry, channel state '
         'never shut down during a behaviour (ChannelShutdownDelay 1 h), revoke for all users only. Trusted: TLC, lib/tlaparse.py, harness projection / monitor code, '
